@@ -252,6 +252,9 @@ def consume_local(body, l, ty, depth=0):
             m = _method(cc)
             if cc.callee == TRY_BRANCH:
                 classes.append(('try', '? at %s' % cc.where()))
+            elif m in ('or_else', 'or') and argk == 0 and (cc.callee or '').startswith('std::result::Result::'):
+                # error recovery: the failure is handed to a fallback and may come back as a success
+                classes.append(('defaulted', 'Result::%s replaces the failure by a fallback at %s' % (m, cc.where())))
             elif m in PRESERVING and argk == 0:
                 if m in ('map_or', 'map_or_else'):
                     # default must itself be a failure
